@@ -1,6 +1,107 @@
 import YaegiVerif.Common.Sexp
-/- Line-protocol front end for C15 (glue). Placeholder until the property's model exists. -/
+import YaegiVerif.Model.VarInit
+import YaegiVerif.Spec.GoInitOrder
+import YaegiVerif.Generated.C15
+/- Line-protocol front end for C15 (glue, not a proof obligation).
+   pkg VARS FUNCS INITS MAIN
+     VARS  = ((NAMES LATE INIT…) …)  NAMES = (a b …)  LATE = 1|0 (callee declared later)  INIT = (label IDS)
+     IDS   = ((name 1|0) …)        1 = denotes the package-level object, 0 = a local / field key of that name
+     FUNCS = ((name IDS) …)        INITS = (label …)   MAIN = (label) | ()
+   answer: class=… deps=… yorder=… ylog=… ilog=… gdeps=… gorder=… glog=…
+     deps/gdeps  i:d,d;i:d…        (collected dependencies per specification / per unit)
+     yorder/gorder  i,i,i | loop   ylog/ilog/glog  label,label,…[,!error] | -
+   `ylog` = Eval of one file (CompileAST + Execute), `ilog` = importSrc of a directory.
+   prog DIR (SUB…) (mainimport…) VARS FUNCS INITS MAIN     SUB = (path (import…) VARS FUNCS INITS)
+   answer: class=(first package, imported ones first, that is not in-domain) yseq= ylog= gseq= glog=   (seq = packages in initialisation order) -/
 namespace YaegiVerif.Driver.C15
-open YaegiVerif
-def handle (_args : List Sexp) : String := "unimplemented"
+open YaegiVerif YaegiVerif.VarInit YaegiVerif.Spec.InitOrder
+
+def parseIdent (s : Sexp) : Option Ident :=
+  match s with
+  | .list [.atom n, f] => do let b ← f.bool?; some ⟨n, b⟩
+  | _ => none
+
+def parseIds (s : Sexp) : Option (List Ident) :=
+  match s with
+  | .list xs => xs.mapM parseIdent
+  | _ => none
+
+def parseInit (s : Sexp) : Option Init :=
+  match s with
+  | .list [.atom l, ids] => do let i ← parseIds ids; some ⟨l, i⟩
+  | _ => none
+
+def parseVar (s : Sexp) : Option VarSpec :=
+  match s with
+  | .list (names :: late :: inits) => do
+    let ns ← names.atoms?
+    let lt ← late.bool?
+    let is ← inits.mapM parseInit
+    some ⟨ns, is, lt⟩
+  | _ => none
+
+def parseFunc (s : Sexp) : Option Func :=
+  match s with
+  | .list [.atom n, ids] => do let i ← parseIds ids; some ⟨n, i⟩
+  | _ => none
+
+def parsePkg (vars funcs inits main : Sexp) : Option Pkg := do
+  let vs ← (← vars.list?).mapM parseVar
+  let fs ← (← funcs.list?).mapM parseFunc
+  let is ← inits.atoms?
+  let m ← main.atoms?
+  some ⟨vs, fs, is, m.head?⟩
+
+def commaNat (l : List Nat) : String := ",".intercalate (l.map toString)
+
+def showDeps (g : Deps) : String :=
+  if g.isEmpty then "-" else
+  ";".intercalate ((List.range g.length).map (fun i => s!"{i}:{commaNat (depsOf g i)}"))
+
+def showRes : Res → String
+  | .ok [] => "-"
+  | .ok l => commaNat l
+  | .loop => "loop"
+  | .fuel => "fuel"
+
+def showTrace (t : Trace) : String :=
+  let l := t.events ++ (if t.err then ["!error"] else [])
+  if l.isEmpty then "-" else ",".intercalate l
+
+/-- SUB = (path (imports…) VARS FUNCS INITS) -/
+def parseSub (s : Sexp) : Option SubPkg :=
+  match s with
+  | .list [.atom path, imps, vars, funcs, inits] => do
+    let is ← imps.atoms?
+    let p ← parsePkg vars funcs inits (.list [])
+    some ⟨path, is, p⟩
+  | _ => none
+
+def showSeq (l : List String) : String := if l.isEmpty then "-" else ",".intercalate l
+
+def handle (args : List Sexp) : String :=
+  match args with
+  | [.atom "pkg", vars, funcs, inits, main] =>
+    (match parsePkg vars funcs inits main with
+     | some p =>
+       let f := Generated.C15.execFacts
+       let gy := collectDepsY p
+       let gg := goDeps p
+       if gtaRejects p then
+         s!"class={classify p} deps=err yorder=err ylog={showTrace (runY f p)} ilog={showTrace (runImportY f p)} gdeps={showDeps gg} gorder={showRes (orderGo gg)} glog={showTrace (runGo p)}"
+       else
+       s!"class={classify p} deps={showDeps gy} yorder={showRes (orderY gy)} ylog={showTrace (runY f p)} ilog={showTrace (runImportY f p)} gdeps={showDeps gg} gorder={showRes (orderGo gg)} glog={showTrace (runGo p)}"
+     | none => "bad-op")
+  | [.atom "prog", dir, .list subs, mimps, vars, funcs, inits, main] =>
+    (match dir.bool?, subs.mapM parseSub, mimps.atoms?, parsePkg vars funcs inits main with
+     | some d, some ss, some mi, some p =>
+       let f := Generated.C15.execFacts
+       let pr : Prog := ⟨ss, mi, p, d⟩
+       let y := progY f pr
+       let g := progGo pr
+       let cls := ((ss.map (fun s => classify s.pkg)) ++ [classify p]).filter (· != "in-domain")
+       s!"class={cls.head?.getD "in-domain"} yseq={showSeq y.seq} ylog={showTrace ⟨y.events, y.err⟩} gseq={showSeq g.1} glog={showTrace g.2}"
+     | _, _, _, _ => "bad-op")
+  | _ => "bad-op"
+
 end YaegiVerif.Driver.C15
